@@ -79,6 +79,7 @@ class Path(object):
         self.solver = z3.Solver()
         self.solver.set('timeout', ex.timeout_ms)
         self.quantified = False
+        self.extractors = {}
         self.ground = z3.Solver()
         self.ground.set('timeout', 2000)
         self.pc = []
@@ -341,6 +342,12 @@ class Path(object):
         rec = dict(path=list(self.decisions[:self.pos]), info=info, notes=list(self.notes))
         if verdict == REFUTED:
             rec['inputs'] = dict((n, model_value(model, e)) for n, e in self.inputs.items())
+            for n, fn in self.extractors.items():
+                # inputs of symbolic size (lists): the case reads their contents off the model
+                try:
+                    rec['inputs'][n] = fn(model)
+                except Exception as e:      # noqa  (an extractor must not hide the refutation)
+                    rec['inputs'][n] = "extractor failed: %r" % (e,)
             ob.refuted.append(rec)
         else:
             ob.unknown.append(rec)
